@@ -369,6 +369,59 @@ Proof.
   - right. split; reflexivity.
 Qed.
 
+(* ---------------- round 3: backend faults at one entry; zones with DST ---------------- *)
+(* "each once, none invented" under backend faults: the workers call the backend once per entry and
+   do not catch its errors, so (1) a fault at ANY entry of an arbitrary directory fails the command
+   (451 after 150; no 2xx listing ever hides an existing entry whose stat failed) and (2) a listing
+   that completes is the complete directory, as the client reads it *)
+Theorem C07_mlsd_complete_or_fails : forall faulty dir,
+  Forall (fun e => entry_name_ok (de_name e)) dir ->
+  (existsb faulty dir = true -> mlsd_worker faulty dir = None) /\
+  (forall ls, mlsd_worker faulty dir = Some ls ->
+     existsb faulty dir = false /\
+     client_collect parse_mlsx_line entry_has_type ls
+     = Ok (map (fun e => (de_name e, entry_of (mlsx_facts (de_stat e) (de_kind e)))) dir)).
+Proof. exact mlsd_complete_or_fails. Qed.
+Print Assumptions C07_mlsd_complete_or_fails.
+
+Theorem C07_list_complete_or_fails_partial : forall off now now' others faulty dir,
+  now <= now' <= now + HOUR -> yr (client_now off now') <= 9999 ->
+  Forall (list_item_ok off now) (present dir) ->
+  (existsb faulty dir = true -> list_worker HALF off now faulty dir = None) /\
+  (forall ls, list_worker HALF off now faulty dir = Some ls ->
+     existsb faulty dir = false /\
+     client_collect (parse_list_line (parse_list_line_unix HALF TWO (client_now off now')) others) (fun _ => true) ls
+     = Ok (map (fun r => (fst r, list_info (snd r) (expected_modify off now (snd r)))) (present dir))).
+Proof. exact (fun off now now' others faulty dir => list_complete_or_fails HALF TWO off now now' others faulty dir consts_proof). Qed.
+Print Assumptions C07_list_complete_or_fails_partial.
+
+(* zones with DST: the offset at the file's instant (off_m) and at the client's clock (off_n) may
+   differ.  PROVED: C07_ls_date_old_or_future holds for ANY client clock (so for every zone), and
+   the recent case holds whenever the client's local clock, shifted by the offset difference, is
+   still within [now, now + 1 h] — e.g. clocks went forward between mtime and now and the two
+   machines' clocks agree.  NOT PROVED (validated by the DST streams of the harness only): the
+   recent case when clocks went back between mtime and now (the shifted clock is up to 1 h
+   BEHIND the server's), and localtime itself. *)
+Theorem C07_ls_date_recent_two_offsets_partial : forall off_m off_n mtime now now',
+  now <= now' + (off_n - off_m) <= now + HOUR ->
+  now - half_year_spec + DAY < mtime <= now ->
+  let tm := civil_of_epoch (mtime + off_m) in
+  1000 <= yr tm -> yr (client_now off_n now') <= 9999 ->
+  parse_ls_date_dt HALF TWO (build_list_mtime HALF off_m mtime now) (client_now off_n now')
+  = Some (minute_floor tm).
+Proof. exact (fun off_m off_n mtime now now' => ls_date_recent_two_offsets HALF TWO off_m off_n mtime now now' consts_proof). Qed.
+Print Assumptions C07_ls_date_recent_two_offsets_partial.
+
+Example C07_two_offsets_satisfiable :   (* CET -> CEST: mtime 2024-03-30 12:00Z, now 2024-03-31 12:00Z *)
+  let off_m := 3600 in let off_n := 7200 in let now := 1711886400 in let mtime := 1711800000 in
+  now <= now + (off_n - off_m) <= now + HOUR /\ now - half_year_spec + DAY < mtime <= now /\
+  1000 <= yr (civil_of_epoch (mtime + off_m)) /\ yr (client_now off_n now) <= 9999.
+Proof. vm_compute. repeat split; congruence. Qed.
+
+Example C07_fault_fails_listing :
+  mlsd_worker (fun e => de_kind e =? 7) [mkdentry [97] None 0; mkdentry [98] None 7; mkdentry [99] None 0] = None.
+Proof. reflexivity. Qed.
+
 (* non-vacuity of C07_client_list_typeless_rejected / C07_mlsx_no_name_rejected:
    "x=1; ." parses to the name "." with no type fact; "Type=file;" has no pathname *)
 Example C07_typeless_line_exists :
